@@ -143,7 +143,7 @@ def rx(e):
   if isinstance(e, Arrow):
     return '%s -> %s' % (rx(e.a), rx(e.v))
   if isinstance(e, Paren):
-    return '(%s)' % rx(e.e)
+    return getattr(e, 'style', '(%s)') % rx(e.e)
   if isinstance(e, AggE):
     body = rp(e.body, top=True) if e.body is not None else None
     if e.style == 'brace':
